@@ -36,6 +36,8 @@ def commands(rng):
         ("where-p", lambda d: ["where", "//pk:b", "-p"]),
         ("where-f", lambda d: ["where", "//:cmd", "-f", "-p"]),
         ("where-missing", lambda d: ["where", "//pk/sub:c"]),
+        ("where-colon", lambda d: ["where", ":a"]),
+        ("where-noslash", lambda d: ["where", "pk:b"]),
         ("archive", lambda d: ["archive"]),
         ("archive-task-latest-o", lambda d: ["archive", "//:all", "--latest", "-o", os.path.join(d, "X.tar.gz")]),
         ("restore", lambda d: ["restore", os.path.join(d, "pre.tar.gz")]),
